@@ -109,6 +109,14 @@ func execC08Fib(c Case) (res evid.Result) {
 					continue
 				}
 				un = Op{Kind: "unset", Name: op.Name}
+			case "repl":
+				for _, r := range op.Batch {
+					if err := step(i, Op{Kind: "clr", Name: r.Name}); err != nil {
+						return evid.Result{Err: err}
+					}
+					i++
+				}
+				continue
 			default:
 				continue
 			}
